@@ -128,3 +128,9 @@ Theorem C01_L0_long_string_key_is_kept_away_from_the_bracket : forall c d n b,
   Fmt0.brk (Fmt0.bstr (Fmt0.EBrk n b)) (Fmt0.pexp c d (Fmt0.EBrk n b)) = (Fmt0.kw "[" :: Fmt0.sp :: Lex.TStr Lex.QBrackets n b :: Fmt0.sp :: Fmt0.kw "]" :: nil)%list.
 Proof. exact BracketsProof.brackets_of_a_long_string. Qed.
 Print Assumptions C01_L0_long_string_key_is_kept_away_from_the_bracket.
+(* ... so that, for every key that is an expression the parser can return (whatever it holds: the premise speaks of the leftmost path only),
+   no long-bracket string token stands right behind the `[` of an index or a table key in what the model prints - `[[[` never arises *)
+Theorem C01_L0_no_long_string_right_behind_a_bracket : forall c d k, BracketsProof.lok k = true ->
+  match Fmt0.brk (Fmt0.bstr k) (Fmt0.pexp c d k) with (_ :: rest)%list => BracketsProof.hd_brk rest = false | nil => True end.
+Proof. exact BracketsProof.no_long_string_right_behind_the_bracket. Qed.
+Print Assumptions C01_L0_no_long_string_right_behind_a_bracket.
